@@ -301,6 +301,70 @@ def case_real(c):
             'extra': {'get_samples_requests': len(src.log)}}
 
 
+def case_from_data(c):
+    """Backends built from existing RAW: requested lengths shorter / equal / longer than the input (both length modes);
+    the reported lengths must describe the blocks actually written (the request is clamped to the input)."""
+    import setigen.voltage as sv
+    from mc.checks import c14
+    viol = []
+
+    def V(failure, detail, site='RawVoltageBackend.record'):
+        viol.append({'site': site, 'failure': failure, 'detail': detail})
+    wd = engine.workdir()
+    stem_in = os.path.join(wd, 'c20in_%s' % engine.sha(c))
+    stem_out = os.path.join(wd, 'c20out_%s' % engine.sha(c))
+    ci = dict(bits=c['bits'], npol=c['npol'], nants=1, directio=c['directio'], aligned=False, layout=c['layout'], content='tone',
+              digitize=True, T=c['T'], nchans=3, start_chan=0, recordings=1, seed=0)
+    in_blocks, bpf_in, ncards, blocsize = c14.write_input(ci, stem_in, 9)
+    n_in = len(in_blocks)
+    Pb, rate, T = c14.P, c14.RATE, c['T']
+    n = 0
+    try:
+        for req in c['requests']:
+            ant = sv.Antenna(sample_rate=rate, fch1=0.0, ascending=True, num_pols=c['npol'], seed=2)
+            ant.x.add_constant_signal(f_start=200.0, drift_rate=0.0, level=0.3)
+            fb = sv.PolyphaseFilterbank(num_taps=c14.M, num_branches=Pb)
+            fb.estimate_channelized_stds(factor=50, seed=4)
+            be = sv.RawVoltageBackend.from_data(stem_in, ant, digitizer=sv.RealQuantizer(), filterbank=fb, start_chan=0, num_subblocks=2)
+            for fn in guppi.list_files(stem_out):
+                os.remove(fn)
+            kw = {}
+            if req[0] == 'num_blocks':
+                kw = dict(length_mode='num_blocks')
+                if req[1] is not None:
+                    kw['num_blocks'] = req[1]
+            else:
+                kw = dict(length_mode='obs_length')
+                if req[1] is not None:
+                    kw['obs_length'] = (req[1] + 0.5) * T * Pb / rate
+            want = n_in if req[1] is None else min(req[1], n_in)
+            try:
+                be.record(output_file_stem=stem_out, header_dict={}, load_template=False, verbose=False, **kw)
+            except Exception as e:
+                V('record_raised', 'request %s: %s: %s' % (req, type(e).__name__, e))
+                continue
+            n += 1
+            blocks = [b for fn in guppi.list_files(stem_out) for b in guppi.parse_file(fn)]
+            tot = want * T * Pb
+            if len(blocks) != want:
+                V('blocks_written', 'request %s on a %d-block input: %d blocks written' % (req, n_in, len(blocks)))
+                continue
+            h = blocks[0]['header']
+            got = (be.num_blocks, be.total_obs_num_samples, int(h['PKTSTOP']) - int(h['PKTSTART']))
+            if got != (want, tot, want * T) or abs(be.obs_length - tot / rate) > 1e-12 * tot / rate or \
+                    abs(float(h['SCANLEN']) - tot / rate) > 1e-9 * tot / rate:
+                V('clamped_lengths', 'request %s on a %d-block input wrote %d blocks, but num_blocks=%r total_obs_num_samples=%r (exact %d) '
+                  'obs_length=%r SCANLEN=%r (exact %r) PKTSTOP-PKTSTART=%r (exact %d)'
+                  % (req, n_in, want, be.num_blocks, be.total_obs_num_samples, tot, be.obs_length, h['SCANLEN'], tot / rate, got[2], want * T))
+    finally:
+        for fn in guppi.list_files(stem_in) + guppi.list_files(stem_out):
+            try:
+                os.remove(fn)
+            except OSError:
+                pass
+    return {'viol': viol, 'n': n, 'nontrivial': [engine.sha(c)], 'outcomes': ['from_data/%d' % n_in]}
+
+
 def run(ctx):
     T = ctx.tier == 'thorough'
     cases = []
@@ -337,6 +401,16 @@ def run(ctx):
                                                          bpf=bpf, source=source, npol=npol, bits=8 if npol == 2 else 4,
                                                          start_chan=0, num_chans=P // 2, t_start=t0, recordings=2))
     ctx.pmap(case_real, real)
+    fd = []
+    for bits in (8, 4):
+        for npol in (1, 2):
+            for layout in ([1, 1], [3, 2], [4, 2]):
+                for Tb in ((8, 10) if T else (8,)):
+                    n_in = layout[0]
+                    reqs = [['num_blocks', None], ['obs_length', None], ['num_blocks', n_in], ['num_blocks', n_in + 3], ['obs_length', n_in + 3],
+                            ['num_blocks', max(1, n_in - 1)], ['obs_length', max(1, n_in - 1)]]
+                    fd.append(dict(bits=bits, npol=npol, layout=layout, T=Tb, directio=npol - 1, requests=reqs))
+    ctx.pmap(case_from_data, fd, chunk=1)
     return ctx.finish(
         rule='complete box of backend constructors (sample_rate x branches x taps x channels x antennas x pols x bits '
              'x samples-per-block); for each, every listed num_blocks and every duration (n + q) blocks is passed to '
